@@ -306,6 +306,15 @@ func (e *enc) loopStores(fr *frame, body map[*ssa.BasicBlock]bool) map[string]bo
 
 // addWriteBase: which component does a store through v hit?
 func (e *enc) addWriteBase(fr *frame, v ssa.Value, keys map[string]bool, allHeap *bool) {
+	if e.awbDepth == 0 {
+		e.awbSeen = map[ssa.Value]bool{}
+	}
+	if e.awbSeen[v] {
+		return
+	}
+	e.awbSeen[v] = true
+	e.awbDepth++
+	defer func() { e.awbDepth-- }()
 	switch x := v.(type) {
 	case *ssa.Alloc:
 		if l, ok := fr.loc[x]; ok {
@@ -786,6 +795,16 @@ func (fr *frame) allocFor(obj *types.Var) *ssa.Alloc {
 	return nil
 }
 
+// inRangeBody: is block b inside the loop whose header performs this map range?
+func inRangeBody(fr *frame, b *ssa.BasicBlock, st *rangeState) bool {
+	for h, ord := range fr.loopOrd {
+		if ord == st.ord {
+			return fr.loopBlocks(h)[b]
+		}
+	}
+	return false
+}
+
 func isPkgLevel(obj *types.Var) bool {
 	return obj.Pkg() != nil && obj.Parent() == obj.Pkg().Scope()
 }
@@ -1017,6 +1036,15 @@ func (e *enc) instr(b *ssa.BasicBlock, in ssa.Instruction) {
 		}
 		ms := e.so.of(x.Map.Type())
 		e.safety("mapnil", fmt.Sprintf("(not (nil_%s %s))", ms, m), x.Pos(), x.String())
+		if _, fresh := x.Map.(*ssa.MakeMap); e.recordCommute && fr.activeRange != nil && fr.activeRange.curKey != "" && e.value(x.Key) != fr.activeRange.curKey && inRangeBody(fr, b, fr.activeRange) &&
+			!(fresh && inRangeBody(fr, x.Map.(*ssa.MakeMap).Block(), fr.activeRange)) {
+			val := e.value(x.Value)
+			if l, ok := fr.loc[x.Value]; ok {
+				val = e.read(l) // a pointer to a freshly built struct: compare the contents
+			}
+			e.commuteSites = append(e.commuteSites, commuteSite{ord: fr.activeRange.ord, pos: x.Pos(), at: fr.cur, key: e.value(x.Key), val: val, rk: fr.activeRange.curKey,
+				nd0: fr.activeRange.nd0, nf0: fr.activeRange.nf0, nd1: len(e.decls), nf1: len(e.defs), text: x.String()})
+		}
 		nv := fmt.Sprintf("(mk_%s (store (dom_%s %s) %s true) (store (val_%s %s) %s %s) false)", ms, ms, m, e.value(x.Key), ms, m, e.value(x.Key), e.value(x.Value))
 		if prov, ok := fr.prov[x.Map]; ok {
 			e.write(prov, nv)
